@@ -25,12 +25,23 @@ package generator
 
 //@ spec errReturn(f model.Function) string =
 //@     cond(f.DstVarStyle == model.DstVarReturn && f.Dst.Pointer, "if err != nil {\nreturn nil, err\n}\n", "if err != nil {\nreturn\n}\n")
-//@ spec opaque guarded(f model.Function, a model.Assignment) string = a.String() + cond(a.RetError(), errReturn(f), "")
+// C07 at every nesting depth: an error-capable assignment is followed by its guard wherever it stands, also
+// inside a nested struct block (the block's own text comes from NestStruct, its contents are guarded here).
+//@ spec guardedContents(f model.Function, cs []model.Assignment, k int) string =
+//@     cond(k <= 0, "", guardedContents(f, cs, k-1) + guarded(f, cs[k-1]))
+//@ spec guardedNest(f model.Function, n model.NestStruct) string =
+//@     cond(n.NullCheckExpr != "", "if " + n.NullCheckExpr + " != nil {\n", "") +
+//@     cond(n.InitExpr != "", n.InitExpr + "\n", "") +
+//@     guardedContents(f, n.Contents, len(n.Contents)) +
+//@     cond(n.NullCheckExpr != "", "}\n", "")
+//@ spec opaque guarded(f model.Function, a model.Assignment) string =
+//@     cond(is(a, model.NestStruct), guardedNest(f, as(a, model.NestStruct)), a.String() + cond(a.RetError(), errReturn(f), ""))
 //@
 //@ func AssignmentToString(f, a) (r)
 //@   requires model.wfAssign(a)
 //@   ensures {C07,C01,C02} r == guarded(*f, a)
 //@   reveal guarded
+//@   loop 1 invariant $k <= len(nest.Contents) && sb.String() == cond(nest.NullCheckExpr != "", "if " + nest.NullCheckExpr + " != nil {\n", "") + cond(nest.InitExpr != "", nest.InitExpr + "\n", "") + guardedContents(*f, nest.Contents, $k)
 
 // ---- function text (C08, C10, C07, C02, C01) --------------------------------------------------------
 
